@@ -134,7 +134,10 @@ def key_of(row):
     """Keys name the type / decoder / class of failure, never the instance."""
     a = row.get("a")
     if a == "dec":
-        return "dec:%s:%s:%s" % (row.get("curve"), row.get("api"), dec_reason(row))
+        why = dec_reason(row)
+        if why in ("canonical-rejected", "wrong-element") and str(row.get("cls", "")).startswith("special-"):
+            why += ":" + row["cls"]          # which special element (zero coordinate, order two, ...)
+        return "dec:%s:%s:%s" % (row.get("curve"), row.get("api"), why)
     if a == "rt":
         what = "identity" if row.get("label") == "identity" else "element" if row.get("label") in ("window", "large") else "special-" + str(row.get("label"))
         if row.get("stage") == "encode":
